@@ -230,8 +230,8 @@ pub fn run(seed: u64, ntraces: usize) {
         let users: Vec<VMAddress> = vec![user_addr(3), user_addr(4), user_addr(5)];
         for a in [&owner, &operator].into_iter().chain(users.iter()) { w.add_user(a, 1_000_000); }
         let gw = sc_addr(0x10);
-        let retention = r.below(4);
-        let min_delay = *r.pick(&[0u64, 10, 100]);
+        let retention = if t % 8 == 5 { 2 } else { r.below(4) };
+        let min_delay = if t % 8 == 5 { 100 } else { *r.pick(&[0u64, 10, 100]) };
         let domain = r.bytes(32);
         let no_operator = r.chance(1, 12);
         let mut t0 = 1000 + r.below(1000);
@@ -250,12 +250,18 @@ pub fn run(seed: u64, ntraces: usize) {
             sets, retention, domain, min_delay, last_rot: t0, sent: vec![] };
         let mut steps: Vec<Value> = vec![];
         let nops = if st.res.result_status != 0 { 0 } else { 6 + r.below(10) as usize };      // a refused deployment leaves no contract to call
+        // directed rotation battery (t % 8 == 5): (caller index in [owner, operator, user0, user1], set: 0 latest / 1 previous, early?)
+        //   owner and a user inside the delay (refused), the operator inside the delay (allowed), then after the delay:
+        //   the owner with the previous set (refused), a user with the latest set (allowed), the operator with the previous set (allowed)
+        let mut rot_script: Vec<(usize, usize, bool)> = if t % 8 == 5 && !no_operator && st.res.result_status == 0 { vec![(0, 0, true), (2, 0, true), (1, 0, true), (0, 1, false), (2, 0, false), (1, 1, false), (0, 0, true)] } else { vec![] };
+        let nops = nops + rot_script.len();
         for _ in 0..nops {
+            let forced_rot = if rot_script.is_empty() { None } else { Some(rot_script.remove(0)) };
             // time advance around the rotation delay
-            let dt = match r.below(6) { 0 => 0, 1 => g.min_delay.saturating_sub(1), 2 => g.min_delay, 3 => g.min_delay + 1, _ => r.below(2 * g.min_delay + 5) };
+            let dt = if let Some((_, _, early)) = forced_rot { if early { g.min_delay / 2 } else { g.min_delay + 1 } } else { match r.below(6) { 0 => 0, 1 => g.min_delay.saturating_sub(1), 2 => g.min_delay, 3 => g.min_delay + 1, _ => r.below(2 * g.min_delay + 5) } };
             let now = (g.last_rot + dt).max(t0); t0 = now; g.w.set_time(now);
             let callers = [g.owner.clone(), g.operator.clone(), g.users[0].clone(), g.users[1].clone()];
-            let choice = r.below(20);
+            let choice = if forced_rot.is_some() { 8 } else { r.below(20) };
             let (opj, step) = if choice < 8 {
                 // approveMessages
                 let nm = match r.below(6) { 0 => 0, 1 | 2 => 1, _ => 1 + r.below(4) as usize };
@@ -278,14 +284,14 @@ pub fn run(seed: u64, ntraces: usize) {
                 (op_json("approve", format!("{}/{}/{}/n={}", mlabel, slabel, p.label, nm), &caller, now, json!({"messages": hx(&raw), "proof": hx(&p.bytes)})), st)
             } else if choice < 12 {
                 // rotateSigners
-                let (nlabel, newset) = match r.below(6) { 0 => gen_bad_set(&mut r), 1 if !g.sets.is_empty() => ("duplicate_of_registered", g.sets[r.below(g.sets.len() as u64) as usize].clone()), _ => ("fresh", gen_valid_set(&mut r)) };
+                let (nlabel, newset) = match if forced_rot.is_some() { 5 } else { r.below(6) } { 0 => gen_bad_set(&mut r), 1 if !g.sets.is_empty() => ("duplicate_of_registered", g.sets[r.below(g.sets.len() as u64) as usize].clone()), _ => ("fresh", gen_valid_set(&mut r)) };
                 let mut raw = newset.encode(0);
-                if r.chance(1, 20) { raw.push(0); }
-                let (slabel, set) = g.pick_set(&mut r);
-                let variant = if r.chance(2, 3) { r.below(2) } else { r.below(19) };
+                if forced_rot.is_none() && r.chance(1, 20) { raw.push(0); }
+                let (slabel, set) = if let Some((_, which, _)) = forced_rot { let e = g.sets.len(); if which == 1 && e >= 2 { ("previous", g.sets[e - 2].clone()) } else { ("latest", g.sets[e - 1].clone()) } } else { g.pick_set(&mut r) };
+                let variant = if forced_rot.is_some() { 1 } else if r.chance(2, 3) { r.below(2) } else { r.below(19) };
                 let G { pool, tab, domain, .. } = &mut g;
                 let p = build_proof(&mut r, pool, tab, &set, domain, 1, &raw, variant);
-                let caller = if r.chance(1, 2) { g.operator.clone() } else { r.pick(&callers).clone() };
+                let caller = if let Some((ci, _, _)) = forced_rot { callers[ci].clone() } else if r.chance(1, 2) { g.operator.clone() } else { r.pick(&callers).clone() };
                 let st = g.w.call0(&caller, &g.gw, "rotateSigners", vec![raw.clone(), p.bytes.clone()]);
                 if st.res.result_status == 0 { g.sets.push(newset); g.last_rot = now; }
                 (op_json("rotate", format!("{}/{}/{}/{}", nlabel, slabel, p.label, if caller == g.operator { "operator" } else { "other" }), &caller, now,
